@@ -201,6 +201,18 @@ func (r *Runner) discharge(tf *TF, dom Domain, o *Obligation, rep *HarnessReport
 	if o.Folded {
 		return
 	}
+	if o.RawScript != "" {
+		timeout := 60 * time.Second
+		if r.tierThorough() {
+			timeout = 600 * time.Second
+		}
+		r.sem <- struct{}{}
+		res, _ := r.Pool.Portfolio([]string{"z3-new", "z3"}, o.RawScript, o.RawNames, timeout, r.tierThorough())
+		<-r.sem
+		o.Status, o.Solver, o.Secs, o.Model, o.Detail = res.Status, res.Solver, res.Secs, res.Model, res.Detail
+		o.Size = strings.Count(o.RawScript, "\n")
+		return
+	}
 	asserts := append([]*Term(nil), o.PC...)
 	if o.Kind != "reach" {
 		if o.negCond == nil {
@@ -423,9 +435,16 @@ func (r *Runner) RunReplay(rf *ReplayFile, path string) (string, error) {
 	}
 	pkg := "./" + strings.TrimPrefix(rf.Package, ModulePath+"/")
 	args := fmt.Sprintf("ulimit -v 6000000; exec go test -v -vet=off -count=1 -timeout 60s -run 'TestVerifReplay$' -overlay %s %s", r.ovJSON, pkg)
+	if rf.Kind == "conc" {
+		// concurrency findings are replayed as a stress run under the race detector
+		args = fmt.Sprintf("exec go test -race -v -vet=off -count=1 -timeout 120s -run 'TestVerifReplay$' -overlay %s %s", r.ovJSON, pkg)
+	}
 	cmd := exec.Command("bash", "-c", args)
 	cmd.Dir = r.L.RepoDir
 	cmd.Env = append(goEnv(), "VERIF_REPLAY="+path, "VERIF_TIER="+r.Opt.Tier)
+	if rf.Kind == "conc" {
+		cmd.Env = append(cmd.Env, "VERIF_REPEAT=400")
+	}
 	out, _ := cmd.CombinedOutput()
 	return string(out), nil
 }
@@ -455,6 +474,16 @@ func confirmOutcome(o *Obligation, out string) string {
 		}
 		if strings.Contains(out, "fatal error:") || strings.Contains(out, "\npanic: ") {
 			return "confirmed: " + firstLine(out, "fatal error:", "panic: ")
+		}
+	case "conc":
+		if strings.Contains(out, "DATA RACE") || strings.Contains(out, "race detected") {
+			return "confirmed: the Go race detector reports a data race in a native stress run of the same threads (" + firstLine(out, "WARNING: DATA RACE", "race detected") + ")"
+		}
+		if strings.Contains(out, "REPLAY assert-failed") {
+			return "confirmed: " + firstLine(out, "REPLAY assert-failed")
+		}
+		if strings.Contains(out, "deadlock") || strings.Contains(out, "test timed out") {
+			return "confirmed: native stress run blocks (" + firstLine(out, "fatal error", "panic: test timed out") + ")"
 		}
 	case "alloc":
 		if strings.Contains(out, "out of memory") || strings.Contains(out, "cannot allocate") || strings.Contains(out, "makeslice") || strings.Contains(out, "len out of range") {
